@@ -390,7 +390,8 @@ class SVGShape:
             ("stroke", "fill_opacity"),
         ]:
             if getattr(target, fill_attr) == "none":
-                target.opacity *= getattr(target, opacity_attr)
+                # a renderer clamps each opacity to [0, 1] before using it
+                target.opacity *= max(0.0, min(1.0, getattr(target, opacity_attr)))
                 setattr(target, opacity_attr, default)
 
         return target
